@@ -4,11 +4,28 @@ import (
 	"fmt"
 	"math"
 	"os"
+	"path/filepath"
 	"strconv"
 	"strings"
 )
 
-const paramDir = "/repo/examples/parameter"
+// paramDir: the shipped parameter folder of the repository under check (VERIF_REPO, default /repo)
+var paramDir = repoDir() + "/examples/parameter"
+
+func repoDir() string {
+	if d := os.Getenv("VERIF_REPO"); d != "" {
+		return d
+	}
+	return "/repo"
+}
+
+// buildDir: where build.sh put the binaries built from the repository under check (VERIF_BUILD, default <verif>/.build)
+func buildDir() string {
+	if d := os.Getenv("VERIF_BUILD"); d != "" {
+		return d
+	}
+	return filepath.Join(verifDir, ".build")
+}
 
 // ---------------------------------------------------------------------------------
 // Scenario: a complete, valid project tree + batch line, generated from a seed.
